@@ -132,7 +132,7 @@ def eclose_cases(draw, tier):
 
 def large_nfas(tier):
     """Long symbol chains and eps-chains (300..2500 states) with the words that reach their accepting states."""
-    for i, n in enumerate([300, 1100] if tier == "quick" else [300, 1100, 2500]):
+    for i, n in enumerate([300, 1100] if tier == "quick" else [300, 1100, 1500]):
         Q = ["q%d" % k for k in range(n)]
         eps = ["", "ε"][i % 2]
         chain = {"Q": Q, "S": ["a"], "d": [[Q[k], "a", Q[k + 1]] for k in range(n - 1)], "q0": Q[0], "F": [Q[n - 1], Q[n // 2]], "eps": eps, "rep": "dd_set"}
@@ -156,7 +156,7 @@ def ex_nfa(tier):
             yield {"nfa": s, "words": []}
         for c in large_nfas(tier):
             yield c
-    return ("all NFAs with 2 states over {a} and over {a,b} with eps-moves (1024 + 16384), all words up to the bound; plus chains / eps-chains of 300..2500 states", gen())
+    return ("all NFAs with 2 states over {a} and over {a,b} with eps-moves (1024 + 16384), all words up to the bound; plus chains / eps-chains of 300..1500 states", gen())
 
 
 def ex_dfa(tier):
